@@ -22,7 +22,7 @@ func init() {
 			s := string(ms)
 			Check(s, r)
 		},
-		Rule: "inputs: every string of <=5 (quick) / <=6 (thorough) symbols over a 15-symbol alphabet of separators, quotes, escapes, comment and number/operator pieces; " +
+		Rule: "inputs: every string of <=5 (quick) / <=6 (thorough) symbols over a 17-symbol alphabet of separators, quotes, escapes, comment and number/operator pieces; " +
 			"corpus and multi-statement programs with ';' inserted at every byte offset; unterminated tokens and comments before ';'. " +
 			"oracle: join/count/no-semicolon/sub-list invariants between SplitStatements and Scan, Parse(whole) vs Parse(piece) statement by statement (spans shifted), " +
 			"Compile(whole) vs Compile(prefix up to the query piece). non-trivial = distinct input with at least one semicolon token and two other tokens",
@@ -31,7 +31,7 @@ func init() {
 	})
 }
 
-var alpha = []string{";", "'", "\"", "`", "\\", "/", "\n", "a", "0", "x", "e", ".", "=", "!", "<"}
+var alpha = []string{";", "'", "\"", "`", "\\", "/", "\n", "a", "0", "x", "e", ".", "=", "!", "<", "+", "-"}
 
 // second alphabet: carriage return, BOM and other runes next to separators
 var alphaB = []string{";", "\r", "\ufeff", "\ufffd", "\u2020", "'", "\"", "\\", "a", "\n", "/", "`"}
@@ -105,7 +105,7 @@ func generate(w *mon.W) {
 	// pairs of corpus programs joined with separators of every kind
 	rng := gen.RNG(w.Seed, "c15")
 	n := w.Pick(5_000, 200_000)
-	seps := []string{";", " ; ", ";\n", "\n;\n", ";;", "; // x\n", ";//x;\n", "'; ", "`;", "\";", "\\;", "!;", "/;", "0x;", "1e;", ".;", "=;", "<;"}
+	seps := []string{";", " ; ", ";\n", "\n;\n", ";;", "; // x\n", ";//x;\n", "'; ", "`;", "\";", "\\;", "!;", "/;", "0x;", "1e;", ".;", "=;", "<;", "1e+;", "2.5E-;", "0e+ ;", "--;", "-- x\n;", "1--1;"}
 	for i := 0; i < n && !w.Stopped(); i++ {
 		var sb strings.Builder
 		k := 1 + rng.Intn(4)
